@@ -5,6 +5,15 @@ D = os.path.dirname(os.path.dirname(os.path.abspath(__file__)))
 
 # property -> (technique, level text, level note, design ref)
 CLAIMED = {
+ "C10": ("sibling cross-check of the four recovery handlers on SSA (dominance, single advance per cycle, value identity of the captured triple); purity check of the strict side of every noPanic branch",
+         "Decides that each handler records exactly the tokens it skips (start, last End, clones) with one advance per cycle and nothing fetched after the loop, that both lexer modes execute the same instructions on clean text, that Bad nodes do not alias the live token, and that BadNode.SQL separates tokens by both trivia fields.",
+         "Trusted: go/ssa dominators, natural-loop construction. Not decided: which tokens ought to be skipped (nesting counters), the '>>' split in handleParseTypeError.", "DESIGN.md §2 C10"),
+ "C12": ("shape rules over the SSA of SplitRawStatements: use-set of the input string, condition classification, value identity of slice bounds and Pos/End, TKAI fact at each piece cut",
+         "Decides that the splitter delegates all lexical knowledge to the lexer, propagates lexical errors, cuts pieces only at ';'/<eof> tokens with Statement == input[Pos:End] by value identity, and that piece starts account for leading comments.",
+         "Trusted: go/ssa; the lexer properties C13/C14. Not decided: ordering / non-overlap arithmetic.", "DESIGN.md §2 C12"),
+ "C13": ("who-may-write analysis of the cursor and token fields + cursor-epoch path analysis of nextToken (every advancing call captured by exactly one Buffer slice whose bounds are cursor loads)",
+         "Decides the tiling argument structurally: the cursor moves only in skip/skipN, every advancing call of nextToken is bracketed by the two cursor loads of exactly one stored slice, Pos/End are in the same cursor epoch as the bounds, every token field is stored on the normal exit, <eof> is a fixed point, every other return advanced.",
+         "Trusted: go/ssa. Not decided: that a computed advance is strictly positive, that Space holds only whitespace.", "DESIGN.md §2 C13"),
  "C04": ("field-based value-flow (shape) analysis of the parser over go/ssa + per-allocation-site abstract evaluation of the consumer methods; residual-set dataflow for switch exhaustiveness",
          "Decides for every allocation site of every node type that SQL/Pos/End never dereference a field that may be nil at that site (helpers summarised, branches on site-constant fields pruned), that every type/constant switch whose fall-through panics covers what can flow to it, and that consumer indexing is length-guarded.",
          "Trusted: go/ssa, VTA; the TKAI summaries used to refine nil returns of tryParse* helpers; one listed assumption (peekDelimiter's byte guard). Not decided: trees built by hand by users.", "DESIGN.md §2 C04"),
